@@ -139,6 +139,8 @@ def gen_cases(rng, ctx):
         e2e += [(ext, 1, method_ok, 0, code, 1, 0, bw) for code in (1, 2, 3, 4, 5, 6, 7, 8) for bw in ((0, 1) if thorough else (0,))]
         e2e += [(ext, 1, m, 0, 0, 1, 2, 0) for m in (0, 0xFF, 2 if ext else 0x80, 1)]
     e2e += [(0, 0, 0, 0, 0, 1, 1, 0), (0, 0, 2, 0, 0, 1, 0, 0), (0, 0, 0, 0, 5, 3, 0, 1)]
+    # destinations keep their address type: IPv4, IPv6 and IPv4-mapped IPv6 literals
+    e2e += [(ext, 1, 0x80 if ext else 2, 0, 0, 1, 0, 0, dk) for ext in (0, 1) for dk in (1, 2, 3)]
     for cfg in e2e:
         l = line("c15_front", [list(cfg)])
         cases.append(Case(l, l, (lambda impl, ext=cfg[0], cr=cfg[1]: "c15_wellformed %d %s" % ((2 if ext else 1) if cr else 0, impl.split()[1] if len(impl.split()) > 1 else "-")),
@@ -215,7 +217,10 @@ def judge(case, impl, model, spec, ctx):
         if impl == "996":
             ctx.setdefault("skipped_env", []).append(case.kind)
             return []
-        ext, creds, method, st, code, atyp, tail_n, bw = case.meta["cfg"]
+        ext, creds, method, st, code, atyp, tail_n, bw = case.meta["cfg"][:8]
+        dk = case.meta["cfg"][8] if len(case.meta["cfg"]) > 8 else 0
+        want_req = {0: [5, 1, 0, 3, 11] + list(b"example.org"), 1: [5, 1, 0, 1, 203, 0, 113, 9],
+                    2: [5, 1, 0, 4, 0x20, 1, 0x0d, 0xb8] + [0] * 11 + [7], 3: [5, 1, 0, 4] + [0] * 10 + [255, 255, 203, 0, 113, 9]}[dk] + [1, 187]
         t = impl.split()
         status, warn, intact = untok(t[0])
         seen = untok(t[1]) if len(t) > 1 else []
@@ -238,8 +243,9 @@ def judge(case, impl, model, spec, ctx):
             out.append(("violation", "%s: the client was answered %d (X-Warning %d), expected %d (%d)" % (what, status, warn, want[0], want[1])))
         elif status == 200 and not intact:
             out.append(("violation", "%s: the tunnel does not start with the bytes that followed the reply, or does not echo" % what))
-        elif status == 200 and seen[-16:] != [5, 1, 0, 3, 11] + list(b"example.org") + [1, 187][:0] and seen[-18:] != [5, 1, 0, 3, 11] + list(b"example.org") + [1, 187]:
-            out.append(("violation", "%s: the request the SOCKS5 server received is not CONNECT example.org:443: %s" % (what, seen[-18:])))
+        elif status == 200 and seen[-len(want_req):] != want_req:
+            out.append(("violation", "%s: the request the SOCKS5 server received is %s, the destination of the client's CONNECT with its address type kept is %s"
+                        % (what, seen[-len(want_req):], want_req)))
         elif model is not None and impl != model:
             out.append(("disagree", "%s: %s vs model %s" % (what, impl[:80], model[:80])))
         return out
